@@ -89,6 +89,7 @@ func (g *frameGen) bytes(kind string, n int) []byte {
 type frameGen struct {
 	e          *Env
 	wellFormed map[string]string // raw bytes of every frame built as well formed -> its kind
+	illFormed  map[string]string // raw bytes of every frame built as ill formed whatever a decoder says -> why
 }
 
 func (g *frameGen) hostInfo() knxnet.HostInfo {
@@ -218,7 +219,7 @@ func (g *frameGen) hostile(router bool) genFrame {
 	edge := func() byte {
 		return []byte{0, 1, 2, 3, 4, 7, 8, 9, 0x35, 0x36, 0x37, 0xfe, 0xff}[e.Choose("wl.edge", 13)]
 	}
-	switch m := e.Choose("wl.mut", 9); m {
+	switch m := e.Choose("wl.mut", 10); m {
 	case 0: // truncate (header length field adjusted to the truncated size: the body is short)
 		if len(b) > 6 {
 			b = b[:6+e.Choose("wl.trunc", len(b)-6)]
@@ -285,6 +286,25 @@ func (g *frameGen) hostile(router bool) genFrame {
 			}
 		}
 		f.desc += "/header"
+	case 9: // an L_Data frame that ends before its own length octets say it does, under a header and a
+		// connection header that are in order: ill formed by construction, whatever a decoder thinks
+		app := g.bytes("wl.illapp", 1+e.Choose("wl.illapplen", 14))
+		app[0] &= 0x3f
+		var info []byte
+		if e.Choose("wl.illinfo", 3) == 0 {
+			info = g.bytes("wl.illinfob", 1+e.Choose("wl.illinfolen", 12))
+		}
+		code := []byte{0x11, 0x2e, 0x29, 0x29}[e.Choose("wl.illcode", 4)]
+		c := mkLData(code, 0xbc, 0xe0, 0x1101, uint16(e.Choose("wl.illdst", 65536)), 2, app, info)
+		cut := 1 + e.Choose("wl.illcut", len(c)-1) // 1 .. len(c)-1 octets missing at the end
+		c = c[:len(c)-cut]
+		if router || e.Choose("wl.illwrap", 2) == 0 {
+			b = mkFrame(svcRoutingInd, c)
+		} else {
+			b = mkFrame(svcTunnelReq, append([]byte{4, uint8(e.Choose("wl.ch", 256)), uint8(e.Choose("wl.seq", 256)), 0}, c...))
+		}
+		g.illFormed[string(b)] = fmt.Sprintf("L_Data frame cut short by %d octets", cut)
+		f.desc = "ldata-cut-short"
 	case 8: // short connect response and friends: 6-byte header + 0..3 bytes
 		svc := []uint16{svcConnRes, svcConnStateRes, svcTunnelRes, svcTunnelReq, svcDescrRes, svcSearchRes, svcRoutingInd, svcRoutingBusy}[e.Choose("wl.ssvc", 8)]
 		b = mkFrame(svc, g.bytes("wl.sb", e.Choose("wl.slen", 4)))
@@ -307,6 +327,7 @@ type sockRun struct {
 	e        *Env
 	sendWant map[string]int // encodings of the values handed to Send -> how often
 	wf       map[string]string
+	ill      map[string]string
 	c        sockCfg
 	sock     knxnet.Socket
 	got      []knxnet.Service
@@ -315,6 +336,9 @@ type sockRun struct {
 	sent     []genFrame // what the peer transmitted, in order
 	sendErrs int
 	sendOK   int
+	closeAt  Stamp  // taken right before the harness calls Close
+	peerGot  []byte // tcp: every octet the peer has read from the client
+	peerEnd  string // tcp: how the peer's reading ended ("": it has not)
 	closed   bool
 	endAt    Stamp // the instant the end (Close, read error) was triggered
 	pending  bool  // the consumer was not reading when the end came
@@ -355,8 +379,9 @@ func runSocket(e *Env, hostile bool) {
 		}
 	}
 	r := &sockRun{e: e, c: c, sendWant: map[string]int{}}
-	gen := &frameGen{e: e, wellFormed: map[string]string{}}
+	gen := &frameGen{e: e, wellFormed: map[string]string{}, illFormed: map[string]string{}}
 	r.wf = gen.wellFormed
+	r.ill = gen.illFormed
 	s := e.S
 
 	var udpPeer *simnet.UDPConn
@@ -394,7 +419,10 @@ func runSocket(e *Env, hostile bool) {
 					s.SleepFor(time.Duration(1+e.Choose("wl.tcpstallfor", 8)) * time.Second)
 				}
 				for {
-					if _, err := tcpPeer.Read(buf); err != nil {
+					n, err := tcpPeer.Read(buf)
+					r.peerGot = append(r.peerGot, buf[:n]...)
+					if err != nil {
+						r.peerEnd = err.Error()
 						return
 					}
 					if stallPeer && e.Choose("wl.tcpstallagain", 20) == 0 {
@@ -572,7 +600,21 @@ func runSocket(e *Env, hostile bool) {
 	r.endAt = e.Stamp()
 	switch c.End {
 	case "close":
-		e.Call("close", 5*time.Second, func() { r.sock.Close(); r.closed = true })
+		if c.Kind == "tcp" && !hostile && e.Choose("wl.lastwords", 3) == 0 {
+			// a few last frames, and Close in the instant the last Send has returned: they are on
+			// their way, and an orderly close lets them arrive
+			for i := 1 + e.Choose("wl.lastwordsn", 3); i > 0; i-- {
+				pk := &knxnet.ConnStateReq{Channel: uint8(200 + i), Control: gen.hostInfo()}
+				r.sendWant[string(knxnet.AllocAndPack(pk))]++
+				if err := r.sock.Send(pk); err != nil {
+					r.sendErrs++
+				} else {
+					r.sendOK++
+				}
+			}
+			e.Fault("close-right-after-send")
+		}
+		e.Call("close", 5*time.Second, func() { r.closeAt = e.Stamp(); r.sock.Close(); r.closed = true })
 	case "close-pending":
 		// the application stops reading, more frames arrive (one sits in the receiver's
 		// hand-over), then the socket is closed; afterwards the application drains the channel
@@ -589,7 +631,7 @@ func runSocket(e *Env, hostile bool) {
 		}
 		s.SleepFor(5 * time.Millisecond)
 		r.endAt = e.Stamp()
-		e.Call("close", 5*time.Second, func() { r.sock.Close(); r.closed = true })
+		e.Call("close", 5*time.Second, func() { r.closeAt = e.Stamp(); r.sock.Close(); r.closed = true })
 		s.SleepFor(time.Millisecond)
 		// the receiver must have ended although nobody took the frame it was holding
 		for _, t := range e.S.LiveLibTasks() {
@@ -617,9 +659,12 @@ func runSocket(e *Env, hostile bool) {
 	}
 	e.WaitDone("consumer-end", 5*time.Second, func() bool { return consumerDone })
 	if !r.closed {
-		e.Call("close", 5*time.Second, func() { r.sock.Close(); r.closed = true })
+		e.Call("close", 5*time.Second, func() { r.closeAt = e.Stamp(); r.sock.Close(); r.closed = true })
 	}
 	s.SleepFor(10 * time.Millisecond)
+	if c.Kind == "tcp" && !hostile && (c.End == "close" || c.End == "close-pending") {
+		e.WaitDone("peer-read-all", 20*time.Second, func() bool { return r.peerEnd != "" })
+	}
 	checkSocket(r, badHeader)
 }
 
@@ -717,6 +762,9 @@ func checkSocket(r *sockRun, badHeader bool) {
 			}
 			return
 		}
+		if why, ok := r.ill[string(raw)]; ok {
+			e.Violate("C01", "malformed-frame-accepted", "an ill-formed frame (%s; %d bytes %x) is decoded without an error, to %s", why, len(raw), clipBytes(raw), dump(svc))
+		}
 		if int(n) > len(raw) {
 			e.Violate("C01", "consumed-exceeds-input:"+fmt.Sprintf("%T", svc), "decoding %d bytes %x (%s) succeeded with a consumed length of %d", len(raw), clipBytes(raw), desc, n)
 		}
@@ -787,6 +835,12 @@ func checkSocket(r *sockRun, badHeader bool) {
 		if !lib || (rec.Kind != "send" && rec.Kind != "tcpwrite") {
 			continue
 		}
+		if ok, _ := headerOK(rec.Data); !ok && rec.Kind == "tcpwrite" && r.closeAt.Seq != 0 && rec.Seq > r.closeAt.Seq {
+			// a Send that was still waiting for room in the window when the application closed the
+			// socket: it fails, and what it had got rid of by then is all there is
+			e.Probe("send-cut-by-close")
+			continue
+		}
 		writes++
 		if r.sendWant[string(rec.Data)] > 0 {
 			r.sendWant[string(rec.Data)]--
@@ -799,6 +853,24 @@ func checkSocket(r *sockRun, badHeader bool) {
 	}
 	if writes != r.sendOK {
 		e.Violate("C16", "send-write-count", "%d successful Sends produced %d writes", r.sendOK, writes)
+	}
+	if c.Kind == "tcp" && !c.Hostile && r.peerEnd != "" && (c.End == "close" || c.End == "close-pending") {
+		// what the Sends handed to the network is what the peer gets to read, all of it, before the
+		// connection ends (the client closed it: an orderly close delivers what was sent before)
+		var wrote []byte
+		for _, rec := range e.F.Records() {
+			if rec.Kind == "tcpwrite" && strings.HasPrefix(rec.Sock, "tcp:"+clientIP) {
+				wrote = append(wrote, rec.Data...)
+			}
+		}
+		if string(wrote) != string(r.peerGot) {
+			d := 0
+			for d < len(wrote) && d < len(r.peerGot) && wrote[d] == r.peerGot[d] {
+				d++
+			}
+			e.Violate("C16", "sent-frames-not-received", "the Sends wrote %d octets to the connection before Close; the peer read %d octets and then %q (first difference at offset %d: wrote %x, read %x)", len(wrote), len(r.peerGot), r.peerEnd, d, clipBytes(wrote[d:]), clipBytes(r.peerGot[d:]))
+		}
+		e.Probe("tcp-peer-read-compared")
 	}
 	// the end
 	if r.inEnd == nil {
